@@ -88,6 +88,11 @@ def mtl_backward(
     if tasks_params is None:
         tasks_params = [_get_leaf_tensors(tensors=[loss], excluded=features) for loss in losses]
 
+    # The parameters can be provided as iterables that can be consumed only once (e.g. generators
+    # such as `module.parameters()`), so they have to be stored before being used several times.
+    shared_params = list(shared_params)
+    tasks_params = [list(task_params) for task_params in tasks_params]
+
     if len(features) == 0:
         raise ValueError("`features` cannot be empty.")
 
@@ -98,9 +103,6 @@ def mtl_backward(
         raise ValueError("`losses` cannot be empty")
     if len(losses) != len(tasks_params):
         raise ValueError("`losses` and `tasks_params` should have the same size.")
-
-    shared_params = list(shared_params)
-    tasks_params = [list(task_params) for task_params in tasks_params]
 
     # Check all parameters before any .grad field gets modified.
     for param in shared_params + [param for task_params in tasks_params for param in task_params]:
